@@ -543,6 +543,113 @@ def gen_trigger(rng, kind):
     return {"ops": ops, "cfg": {"log_input": False, "keep_original": rng.random() < 0.5}}
 
 
+# ---- cells made from Formula objects ---------------------------------------------------------
+#
+# A cells can be made from the Formula OBJECT of another cells: `Cells.copy(space[, name])`,
+# `new_cells(name, formula=other.formula)`, `cells.formula = other.formula`, `UserSpace.copy`.  What is written
+# is the formula's source text, and the reader names a def cells after the `def` in that text: the round trip
+# holds only if the source of the new cells is a definition under ITS name.  The family enumerates
+# (kind of source formula) x (how the new cells is made, under the same or another name, in the same space,
+# another space, a child space, from another model), gives the new cells an input of its own where it has a
+# name of its own, and adds a cells that calls it by name.
+
+FOBJ_SOURCES = [
+    ("def", "rate", "def rate(x):\n    return 3 * x + k", [0]),
+    ("def-doc-two-params", "two", 'def two(x, y=2):\n    """Doc of two."""\n    return x + y + k', [1, 2]),
+    ("lambda", "lam", "lambda x: x * 5 + k", [2]),
+    ("def-named-otherwise", "orig", "def some_other_name(x):\n    return x - k", [3]),
+]
+
+
+def formula_object_family():
+    """[(tag, program)]"""
+    progs = []
+    cfg = {"log_input": False, "keep_original": True}
+    for skind, sname, src, key in FOBJ_SOURCES:
+        base_ops = [["space", "", "A", None], ["space", "", "B", None], ["space", "A", "C", None],
+                    ["ref", "A", "k", ["int", 2], "attr"], ["ref", "B", "k", ["int", 3], "attr"],
+                    ["ref", "A.C", "k", ["int", 5], "attr"],
+                    ["cells", "A", sname, src, {}], ["input", "A." + sname, key, ["int", 40]]]
+        two = len(key) == 2
+        hows = [
+            ("copy, same name, other space", [["ccopy", "A." + sname, "B", None]], "B", sname),
+            ("copy, other name, same space", [["ccopy", "A." + sname, "A", "disc"]], "A", "disc"),
+            ("copy, other name, other space", [["ccopy", "A." + sname, "B", "disc"]], "B", "disc"),
+            ("copy, other name, child space", [["ccopy", "A." + sname, "A.C", "disc"]], "A.C", "disc"),
+            ("new_cells from the formula, same name, other space", [["cfrom", "B", sname, "A." + sname, {}]], "B", sname),
+            ("new_cells from the formula, other name, same space", [["cfrom", "A", "disc", "A." + sname, {}]], "A", "disc"),
+            ("new_cells from the formula, other name, other space, uncached",
+             [["cfrom", "B", "disc", "A." + sname, {"is_cached": False}]], "B", "disc"),
+            ("formula assigned to an existing cells of another name",
+             [["cells", "B", "disc", "lambda x%s: 0" % (", y=2" if two else ""), {}], ["fset", "B.disc", "A." + sname]],
+             "B", "disc"),
+            ("set_formula on an existing def cells of another name",
+             [["cells", "A.C", "disc", "def disc(x%s):\n    return 1" % (", y=2" if two else ""), {}],
+              ["fset", "A.C.disc", "A." + sname, "method"]], "A.C", "disc"),
+            ("space copied", [["scopy", "A", "", "A2"]], "A2", sname),
+            ("copy of a copy, each under another name",
+             [["ccopy", "A." + sname, "B", "disc"], ["ccopy", "B.disc", "A.C", "fo"]], "A.C", "fo"),
+        ]
+        for how, ops, where, newname in hows:
+            after = []
+            uncached = any(o[0] == "cfrom" and o[4].get("is_cached") is False for o in ops)
+            if not uncached:
+                after.append(["input", where + "." + newname, [3, 1] if two else [3], ["int", 50]])
+            after.append(["cells", where, "pv", "def pv(x):\n    return %s(x) + 1" % newname, {}])
+            progs.append(("fobj:%s:%s" % (skind, how), {"ops": base_ops + ops + after, "cfg": dict(cfg)}))
+    # from another model
+    for how, ops, newname in [
+            ("def of another model, same name", [["ccopy", "@L.rate", "B", None]], "rate"),
+            ("def of another model, other name", [["ccopy", "@L.rate", "B", "disc"]], "disc"),
+            ("lambda of another model, other name", [["ccopy", "@L.disc", "B", "lam2"]], "lam2"),
+            ("new_cells from the formula of a def of another model, other name", [["cfrom", "B", "fo", "@L.two", {}]], "fo"),
+            ("formula of a def of another model assigned",
+             [["cells", "B", "ba", "lambda x: 0", {}], ["fset", "B.ba", "@L.orig"]], "ba")]:
+        base_ops = [["space", "", "A", None], ["space", "", "B", None], ["ref", "B", "k", ["int", 3], "attr"]]
+        after = [["input", "B." + newname, [3, 1] if "two" in str(ops) else [3], ["int", 50]],
+                 ["cells", "B", "pv", "def pv(x):\n    return %s(x) + 1" % newname, {}]]
+        progs.append(("fobj:%s" % how, {"ops": base_ops + ops + after, "cfg": dict(cfg)}))
+    # the parameter formula of a SPACE taken from the Formula object of a cells / of another space
+    for how, src_ops, src in [
+            ("space formula from the formula of a def cells", [["cells", "A", "par", "def par(i):\n    return None", {}]], "A.par"),
+            ("space formula from the formula of a lambda cells", [["cells", "A", "par", "lambda i, j=2: None", {}]], "A.par"),
+            ("space formula from the def formula of another space",
+             [["space", "", "P", "def _formula(i):\n    # parameters\n    return None"]], "P"),
+            ("space formula from the formula of a def cells of another model", [], "@L.par")]:
+        ops = [["space", "", "A", None], ["space", "", "B", None], ["cells", "B", "foo", "lambda x: x + i", {}]] + src_ops + \
+            [["sformula_from", "B", src], ["iinput", [["B", [1]]], "foo", [2], ["int", 5]]]
+        progs.append(("fobj:%s" % how, {"ops": ops, "cfg": dict(cfg)}))
+    return progs
+
+
+def add_copies(prog, rng):
+    """a generated program with cells made from the Formula objects of its own cells (and of another model's):
+    the operations are put before the first input / evaluation (creating a cells discards ItemSpaces)"""
+    ops = prog["ops"]
+    cells = [(o[1], o[2]) for o in ops if o[0] == "cells" and o[3] is not None]
+    spaces = [(o[1] + "." + o[2]) if o[1] else o[2] for o in ops if o[0] == "space"]
+    if not cells or not spaces:
+        return prog
+    new = []
+    for i in range(rng.choice([1, 1, 2, 3])):
+        sp, cn = _pick(rng, cells)
+        src = sp + "." + cn if rng.random() < 0.85 else _pick(rng, ["@L.rate", "@L.disc", "@L.two", "@L.orig"])
+        dst = sp if rng.random() < 0.4 else _pick(rng, spaces)
+        name = _pick(rng, ["cp%d" % i, "cq%d" % i, None])
+        r = rng.random()
+        if r < 0.5:
+            new.append(["ccopy", src, dst, name])
+        elif r < 0.8:
+            new.append(["cfrom", dst, name or "cn%d" % i, src, {}])
+        else:
+            new.append(["cells", dst, "cs%d" % i, "lambda x: 0", {}])
+            new.append(["fset", "%s.cs%d" % (dst, i), src, rng.choice(["attr", "method"])])
+        if name and new[-1][0] != "fset" and rng.random() < 0.5:
+            new.append(["input", dst + "." + name, [rng.randrange(4) for _ in range(1)], ["int", 60 + i]])
+    at = next((j for j, o in enumerate(ops) if o[0] in ("input", "iinput", "eval")), len(ops))
+    return {"ops": ops[:at] + new + ops[at:], "cfg": prog["cfg"]}
+
+
 # small programs around one construct: the recorded findings, and the repaired ones (lambda-uncached,
 # lambda-empty-doc: 2afb524; doc-quote, doc-backslash, doc-cr, doc-line-boundary: 2b72506) as regressions
 TRIGGERS = ["lambda-uncached", "lambda-empty-doc", "refmode-noninterface", "derived-input",
@@ -567,6 +674,29 @@ class Builder:
         self.m = mx.new_model(name)
         self.shared = {}
         self.rejected = []
+        self._lib = None
+
+    def lib(self):
+        """a second model (`Lib`) whose cells are copied INTO the model under test (`@L.rate` ...)"""
+        if self._lib is None:
+            lm = mx.new_model("Lib")
+            sp = lm.new_space("L")
+            sp.k = 4
+            sp.new_cells("rate", formula="def rate(x):\n    return 3 * x + k")
+            sp.rate[0] = 7
+            sp.new_cells("disc", formula="lambda x: x * 5 + k")
+            sp.disc[1] = 9
+            sp.new_cells("two", formula='def two(x, y=2):\n    """Doc of two."""\n    return x + y')
+            sp.new_cells("orig", formula="def some_other_name(x):\n    return x - 1")
+            sp.new_cells("par", formula="def par(i):\n    return None")
+            self._lib = lm
+        return self._lib
+
+    def obj(self, path):
+        """an object of the model by its dotted name; `@...`: of the auxiliary model"""
+        if path.startswith("@"):
+            return _get(self.lib(), path[1:])
+        return _get(self.m, path)
 
     def make_value(self, spec):
         k = spec[0]
@@ -625,6 +755,36 @@ class Builder:
             c = sp.new_cells(op[2], formula=op[3], **kw) if op[3] is not None else sp.new_cells(op[2])
             if "allow_none" in op[4]:
                 c.allow_none = op[4]["allow_none"]
+        # ---- cells made from the Formula OBJECT of another cells (of this or of another model)
+        elif k == "ccopy":
+            # Cells.copy(parent[, name]): formula, inputs
+            src, dst = self.obj(op[1]), _get(m, op[2])
+            if op[3] is None:
+                src.copy(dst)
+            else:
+                src.copy(dst, op[3])
+        elif k == "cfrom":
+            # new_cells(name, formula=<Formula object>)
+            kw = {}
+            if "is_cached" in op[4]:
+                kw["is_cached"] = op[4]["is_cached"]
+            _get(m, op[1]).new_cells(op[2], formula=self.obj(op[3]).formula, **kw)
+        elif k == "fset":
+            # the formula of an existing cells replaced by the Formula object of another one
+            if len(op) > 3 and op[3] == "method":
+                _get(m, op[1]).set_formula(self.obj(op[2]).formula)
+            else:
+                _get(m, op[1]).formula = self.obj(op[2]).formula
+        elif k == "sformula_from":
+            # the parameter formula of a space set from the Formula object of a cells or of another space
+            _get(m, op[1]).formula = self.obj(op[2]).formula
+        elif k == "scopy":
+            # UserSpace.copy(parent[, name]): the cells of the copy are made from the Formula objects of the original's
+            src = self.obj(op[1])
+            if op[3] is None:
+                src.copy(_get(m, op[2]))
+            else:
+                src.copy(_get(m, op[2]), op[3])
         elif k == "cdoc":
             _get(m, op[1]).set_doc(op[2])
         elif k == "doc":
@@ -1766,7 +1926,7 @@ def corpus_programs():
 
 def run(ctx, out):
     stats = {}
-    n_models = ctx.n(55, 1000)
+    n_models = ctx.n(47, 1000)
     n_triggers = ctx.n(2, 12)
     n_paths = ctx.n(1500, 40000)
     n_docs = ctx.n(1500, 40000)
@@ -1778,7 +1938,13 @@ def run(ctx, out):
     seen, nontrivial, samples = set(), set(), []
     programs = [("corpus:" + f, p) for f, p in corpus_programs()]
     for i in range(n_models):
-        programs.append(("gen:%d" % i, gen_program(ctx.rng("model", i), "normal" if i % 4 else "small")))
+        prog = gen_program(ctx.rng("model", i), "normal" if i % 4 else "small")
+        if i % 3 == 2:
+            # every third model also holds cells made from the Formula objects of its cells (own random stream:
+            # the models themselves are the ones drawn without it)
+            prog = add_copies(prog, ctx.rng("copies", i))
+        programs.append(("gen:%d" % i, prog))
+    programs += formula_object_family()
     for k in TRIGGERS:
         for j in range(n_triggers):
             programs.append(("trigger:%s:%d" % (k, j), gen_trigger(ctx.rng("trigger", k, j), k)))
@@ -1804,6 +1970,8 @@ def run(ctx, out):
     sprogs += [(t, p) for t, p in programs if t.startswith("trigger:") and t.endswith(":0")]
     sprogs += [(t, p) for t, p in programs if t.startswith("corpus:") and "steps" not in p]
     sprogs += [("serial:" + t, p) for t, p in serialworld.extra_programs()]
+    fobj = [(t, p) for t, p in programs if t.startswith("fobj:")]
+    sprogs += fobj if ctx.tier == "thorough" else ctx.rng("serial-fobj").sample(fobj, 16)
     ev_serial = 0
     for tag, prog in sprogs:
         ev_serial += serialworld.check_program(prog, out, stats, tag)
